@@ -128,6 +128,14 @@ def register(m):
     m("C03", "b4-chain-through-solve-simultaneous-ok", TORS, TODO, DERIV % ("_twist_angle(_time)", ", simultaneous=True"), "SILENT")
     m("C03", "b4-chain-through-solve-other-value-ok", TORS, TODO, DERIV % ("symbols.angular_distance", ""), "SILENT",
       note="the value of the first entry does not contain the second key")
+    PARSE = "symplyphysics/docs/parse.py"
+    m("C19", "b4-title-underline-must-be-as-long-as-title", PARSE,
+      "    def is_section_break(line: str, char: str) -> bool:\n        return all(c == char for c in line)\n\n    lines = doc.splitlines()\n",
+      "    lines = doc.splitlines()\n\n    def is_section_break(line: str, char: str) -> bool:\n        return all(c == char for c in line) and len(line) >= len(lines[lines.index(line) - 1])\n", "D9",
+      note="seeds C19_1 / b3_C19_1 (refused while the title function was mirrored by a digest-pinned replica; now the function itself is evaluated on every module docstring)")
+    m("C19", "b4-title-function-loop-condition-ok", PARSE,
+      "    while True:\n        if not description_lines or description_lines[0]:\n            break\n        description_lines.pop(0)\n",
+      "    while description_lines and not description_lines[0]:\n        description_lines.pop(0)\n", "SILENT")
     # C09 N1: factories hand out fresh systems
     m("C09", "b2-transform-returns-argument", CSYS,
       ") -> CoordinateSystem:\n    new_coord_system = from_system.coord_system.create_new(",
